@@ -168,6 +168,9 @@ impl<F: Float> Transformer<Kernel<F>, DatasetBase<Kernel<F>, Vec<usize>>>
         }
 
         // flatten resulting clusters and reverse index
+        // number the clusters by their smallest member, not by the hash map's iteration order
+        let mut clusters = clusters.into_iter().collect::<Vec<_>>();
+        clusters.sort_by_key(|(_, ids)| ids.iter().min().cloned());
         let mut tmp = vec![0; num_observations];
         for (i, (_, ids)) in clusters.into_iter().enumerate() {
             for id in ids {
